@@ -171,6 +171,9 @@ var c13WantType = map[string]string{"pStyle": "paragraph", "rStyle": "character"
 type c13Ctx struct {
 	stage     string
 	apiStyles map[string]c13StyleFP
+	// note ids the caller removed through RemoveFootnote/RemoveEndnote ("footnote|1"): a marker the library left
+	// in the body for such a note is not this property's subject
+	removedNotes map[string]bool
 }
 
 func c13Oracle(pkg *pkgmodel.Pkg, cx c13Ctx) []rep.Violation {
@@ -247,6 +250,9 @@ func c13Oracle(pkg *pkgmodel.Pkg, cx c13Ctx) []rep.Violation {
 		}
 	}
 	for _, u := range o.noteMarkers {
+		if cx.removedNotes[u.Kind+"|"+u.ID] {
+			continue
+		}
 		if !o.notes[u.Kind][u.ID] {
 			add("note-undefined|"+u.Kind+"|marker|"+cx.stage, "note-undefined",
 				fmt.Sprintf("%s: the library's %s marker for note id %q has no w:%s of that id in %q (ids %v)", u.Part, u.Kind, u.ID, u.Kind, o.notePart[u.Kind], c13BoolKeys(o.notes[u.Kind])))
@@ -447,6 +453,9 @@ var c13Ops = []c13Op{
 	{name: "AddListItem(number,level 1)", kind: "list", arg: 1},
 	{name: "AddFootnote", kind: "fn"},
 	{name: "AddEndnote", kind: "en"},
+	{name: "RemoveFootnote(lowest id that exists)", kind: "fnrm"},
+	{name: "RemoveEndnote(lowest id that exists)", kind: "enrm"},
+	{name: "RestartNumbering(99) [an id that names no list]", kind: "restart"},
 	{name: "work on another document (build, save, reopen, render as template)", kind: "other"},
 	{name: "GenerateTOC(levels 1-9)", kind: "toc"},
 	{name: "AutoGenerateTOC(levels 1-9)", kind: "autotoc"},
@@ -479,16 +488,18 @@ func init() {
 }
 
 type c13Inst struct {
-	doc       *document.Document
-	origin    string
-	fromOpen  bool            // the current object came from Open
-	reopened  bool            // ... of a package this library wrote
-	saved     bool            // the current object was saved before
-	uses      map[string]int  // custom style id -> number of elements the harness made that use it
-	api       map[string]bool // custom ids currently in the registry through style API calls on the current object
-	apiFP     map[string]c13StyleFP // their definition as last read from the registry: a style that silently leaves the registry is still expected
-	lastSaved string          // summary of the id-defining parts of the last save (key)
-	lastNT    bool
+	doc           *document.Document
+	origin        string
+	fromOpen      bool                  // the current object came from Open
+	reopened      bool                  // ... of a package this library wrote
+	saved         bool                  // the current object was saved before
+	uses          map[string]int        // custom style id -> number of elements the harness made that use it
+	api           map[string]bool       // custom ids currently in the registry through style API calls on the current object
+	apiFP         map[string]c13StyleFP // their definition as last read from the registry: a style that silently leaves the registry is still expected
+	lastSaved     string                // summary of the id-defining parts of the last save (key)
+	lastNT        bool
+	removedNotes  map[string]bool // "footnote|1": notes the caller removed
+	nrm, nrestart int
 }
 
 func (i *c13Inst) stage() string {
@@ -575,6 +586,10 @@ func (i *c13Inst) Enabled(op int) bool {
 		return i.regHas(o.id, style.StyleTypeParagraph)
 	case "tblstyleid":
 		return i.regHas(o.id, style.StyleTypeTable)
+	case "fnrm", "enrm":
+		return i.nrm < 2
+	case "restart":
+		return i.nrestart < 1
 	case "remove":
 		// only styles no element uses are removed
 		return i.doc.GetStyleManager().StyleExists(o.id) && i.uses[o.id] == 0 && !i.bodyUses(o.id)
@@ -607,7 +622,7 @@ func c13FPOf(s *style.Style) c13StyleFP {
 
 func (i *c13Inst) ctx() c13Ctx {
 	sm := i.doc.GetStyleManager()
-	cx := c13Ctx{stage: i.stage(), apiStyles: map[string]c13StyleFP{}}
+	cx := c13Ctx{stage: i.stage(), apiStyles: map[string]c13StyleFP{}, removedNotes: i.removedNotes}
 	for id := range i.api {
 		// the expected definition is read from the registry itself (public accessor)
 		if s := sm.GetStyle(id); s != nil {
@@ -794,6 +809,32 @@ func (i *c13Inst) Apply(op int) (string, []rep.Violation) {
 				return
 			}
 			i.lastNT = true
+		case "fnrm", "enrm":
+			outcome = "error(no such note)"
+			for id := 1; id <= 9; id++ {
+				var err error
+				kind := "footnote"
+				if o.kind == "fnrm" {
+					err = i.doc.RemoveFootnote(fmt.Sprint(id))
+				} else {
+					kind = "endnote"
+					err = i.doc.RemoveEndnote(fmt.Sprint(id))
+				}
+				if err == nil {
+					if i.removedNotes == nil {
+						i.removedNotes = map[string]bool{}
+					}
+					i.removedNotes[kind+"|"+fmt.Sprint(id)] = true
+					i.nrm++
+					outcome = "ok"
+					i.lastNT = true
+					break
+				}
+			}
+		case "restart":
+			i.doc.RestartNumbering("99")
+			i.nrestart++
+			i.lastNT = true
 		case "toc":
 			if err := i.doc.GenerateTOC(c13TOCConfig()); err != nil {
 				outcome = "error"
@@ -863,7 +904,12 @@ func (i *c13Inst) Key() string {
 		api = append(api, id)
 	}
 	sort.Strings(api)
-	fmt.Fprintf(&b, "|api%v|uses X%d T%d|", api, i.uses["X"], i.uses["T"])
+	var rm []string
+	for k := range i.removedNotes {
+		rm = append(rm, k)
+	}
+	sort.Strings(rm)
+	fmt.Fprintf(&b, "|api%v|uses X%d T%d|rm%v restart%d|", api, i.uses["X"], i.uses["T"], rm, i.nrestart)
 	// the body as the library would write it
 	var body []byte
 	if p := guard(func() { body, _ = xml.Marshal(i.doc.Body) }); p != "" {
